@@ -17,6 +17,7 @@ import (
 // recCase: a chain with Recovery somewhere, a panic somewhere later, a request sequence (C15).
 type recCase struct {
 	Env    string   `json:"env"`    // development | production | test
+	Built  string   `json:"assembled_in_env,omitempty"` // the instance (incl. Recovery) is assembled while this environment is set, then the environment is switched to Env (serial cases only)
 	Pre    int      `json:"pre"`    // middleware placed before Recovery
 	Mid    []string `json:"mid"`    // handlers between Recovery and the panic site: plain | next | write-next
 	Where  string   `json:"where"`  // route | action | notfound | group
@@ -162,6 +163,9 @@ func clip(s string) string {
 
 func judgeRec(w *core.W, c *recCase) {
 	var events []string
+	if c.Built != "" {
+		flamego.SetEnv(flamego.EnvType(c.Built))
+	}
 	f := flamego.NewWithLogger(io.Discard)
 	for i := 0; i < c.Pre; i++ {
 		i := i
@@ -251,6 +255,10 @@ func judgeRec(w *core.W, c *recCase) {
 		target = "/nowhere"
 	}
 	f.Get("/ok", func() string { return "fine" })
+	if c.Built != "" {
+		flamego.SetEnv(flamego.EnvType(c.Env))
+		w.Count("environment-switched-after-assembly")
+	}
 
 	serve := func(path string) recObs {
 		events = nil
@@ -304,7 +312,7 @@ func judgeRec(w *core.W, c *recCase) {
 }
 
 func runC15(r *core.Run) {
-	r.Rule("chains with 0-2 middleware before Recovery, 0-3 handlers between Recovery and the panic site (plain / calling Next / writing then calling Next), panic site in a route handler, a grouped route reached through Next, the action, or the not-found chain; phases before any write / after the status / after body bytes; panic values string, error, runtime error, struct, int, http.ErrAbortHandler, and an unresolvable dependency; request sequences mixing healthy and panicking requests on one instance; the three environments in sequential phases (the environment is process-global). Oracle: nothing reaches recover() around ServeHTTP; status 500 iff nothing sent before, else the first status; body = bytes written before the panic + detail (development) or generic text; outer middleware completes after Next(); healthy follow-up requests equal their pre-panic baseline. non-trivial = distinct (environment, value kind, phase, site, nesting, chain shape)")
+	r.Rule("chains with 0-2 middleware before Recovery, 0-3 handlers between Recovery and the panic site (plain / calling Next / writing then calling Next), panic site in a route handler, a grouped route reached through Next, the action, or the not-found chain; phases before any write / after the status / after body bytes; panic values string, error, runtime error, struct, int, http.ErrAbortHandler, and an unresolvable dependency; request sequences mixing healthy and panicking requests on one instance; the three environments in sequential phases (the environment is process-global), plus serial cases assembled under one environment and served under another. Oracle: nothing reaches recover() around ServeHTTP; status 500 iff nothing sent before, else the first status; body = bytes written before the panic + detail (development) or generic text; outer middleware completes after Next(); healthy follow-up requests equal their pre-panic baseline. non-trivial = distinct (environment, value kind, phase, site, nesting, chain shape)")
 	r.Assume("panics are raised in handlers after Recovery; Recovery logs to io.Discard")
 	c15Canaries(r)
 	orig := flamego.Env()
@@ -319,8 +327,20 @@ func runC15(r *core.Run) {
 			judgeRec(w, c)
 		})
 	}
+	// the environment may change after the application was assembled: serial cases (the environment is process-global)
+	ws := r.Serial()
+	envs := []string{"development", "production", "test"}
+	for i := 0; i < r.N(300, 6000); i++ {
+		rng := r.Rand("rec-switch", i)
+		c := genRecCase(rng, envs[rng.Intn(3)])
+		c.Built = envs[rng.Intn(3)]
+		ws.Begin("recovery", c)
+		judgeRec(ws, c)
+	}
+	ws.Done()
+	ws.Merge()
 	flamego.SetEnv(orig)
-	for _, k := range []string{"kind:string", "kind:error", "kind:runtime", "kind:struct", "kind:int", "kind:abort", "kind:dep", "phase:before", "phase:after-header", "phase:after-body", "where:route", "where:group", "where:action", "where:notfound", "depth:flat", "depth:nested-next", "follow-up-requests"} {
+	for _, k := range []string{"environment-switched-after-assembly", "kind:string", "kind:error", "kind:runtime", "kind:struct", "kind:int", "kind:abort", "kind:dep", "phase:before", "phase:after-header", "phase:after-body", "where:route", "where:group", "where:action", "where:notfound", "depth:flat", "depth:nested-next", "follow-up-requests"} {
 		r.GateCounter(k, 100)
 	}
 	r.Gate("distinct_nontrivial", r.NonTrivialCount(), 1000)
